@@ -1,22 +1,22 @@
 CONSTANTS
-  Publishers = {"A"}
-  Readers = {}
-  RemoteReaders = {}
-  LockFreeReaders = {}
+  Publishers = {"A", "B"}
+  Readers = {"r"}
+  RemoteReaders = {"r"}
+  LockFreeReaders = {"r"}
   Keys <- KeysSeq
-  HasCache = FALSE
-  MaxFaults = 1
-  InitEpochs = 1
-  ReaderLag = 0
+  HasCache = TRUE
+  MaxFaults = 0
+  InitEpochs = 2
+  ReaderLag = 2
   RecheckEpochAfterBegin = TRUE
   FlagHeldThroughDbWrite = TRUE
   RootHashBeforeCommit = TRUE
-  PrevEpochChecked = TRUE
+  PrevEpochChecked = FALSE
   ReadersSeePendingEpoch = FALSE
   RollbackReleasesFlag = TRUE
   ExportSched = FALSE
 VIEW View
 INIT MCInit
 NEXT MCNext
-INVARIANTS AtomicFailure NoTxnLeftOpen ReturnedPairsStayPublished
+INVARIANTS AnswersArePublished EpochsDistinct FinalEqualsSerial
 CHECK_DEADLOCK FALSE
